@@ -188,7 +188,10 @@ fn strip_comments(line: &str) -> String {
         else if *ch == '[' { square_depth += 1; }
         else if *ch == ')' { round_depth -= 1; }
         else if *ch == ']' { square_depth -= 1; }
-        else if round_depth == 0 && square_depth == 0 {
+        // A parenthesis or bracket opened on a previous line may close on
+        // this line. The depth is then negative and the text after it is
+        // outside: `   $Y).   % comment`
+        else if round_depth <= 0 && square_depth <= 0 {
             if *ch == '#' || *ch == '%' {
                 index = i;
                 has_comment = true;
